@@ -23,6 +23,13 @@ def replay(group, trace):
     sys.path.insert(0, os.path.join(root, 'replay'))
     import replaylib as R
     exe = R.build_full('C18.cpp', with_daemon=False, extra=['-fsanitize=undefined,address', '-fno-sanitize-recover=all', '-g'])
+    a = (trace or {}).get('assignments', {})
+    if group.entry == 'h_base64' and 'in_n' in a:
+        n = R.num(a['in_n'])
+        text = bytes((R.num(a.get(f'in_text[{k}]', 0)) & 0xFF) for k in range(n))
+        rc, out = R.run(exe, ['text', text.hex() or '00'[:0]], timeout=60)
+        last = [l for l in out.strip().splitlines() if l.strip()][-1:] or ['']
+        return rc != 0, f'text {text!r}: ' + (last[0][:400] if rc != 0 else 'decoded or refused with invalid_argument')
     rc, out = R.run(exe, [int(os.environ.get('VERIF_SEED', '0') or 0)], timeout=300)
     if rc == 0:
         return False, out.strip().splitlines()[-1][:300]
